@@ -2,10 +2,11 @@
 
 use super::Mesh;
 use crate::{Point3, Result};
+use std::collections::BTreeSet;
 #[cfg(not(feature = "verif"))]
-use std::collections::{HashMap, HashSet};
+use std::collections::HashMap;
 #[cfg(feature = "verif")]
-use crate::verif::collections::{HashMap, HashSet};
+use crate::verif::collections::HashMap;
 
 pub struct MeshEdges<'a> {
     /// The original mesh associated with the edge structure
@@ -152,10 +153,14 @@ fn boundary_loops(boundary_edges: Vec<[u32; 2]>) -> Vec<Vec<u32>> {
     }
 
     let mut used = vec![false; boundary_edges.len()];
-    let mut queue: HashSet<u32> = boundary_edges.iter().map(|e| e[0]).collect();
+    // Loops are started from the lowest vertex which still has an unused edge, so that the loops
+    // and the vertex each one starts on do not depend on the iteration order of a hash set. The
+    // start of the boundary decides the rotation of the layout in `boundary_first_flatten`, which
+    // on curved meshes changes the result by more than a rigid motion.
+    let mut queue: BTreeSet<u32> = boundary_edges.iter().map(|e| e[0]).collect();
     let mut all_loops = Vec::new();
 
-    while let Some(&start_id) = queue.iter().next() {
+    while let Some(&start_id) = queue.first() {
         // The vertices of the current walk and where each one is in it
         let mut working = vec![start_id];
         let mut position: HashMap<u32, usize> = HashMap::new();
